@@ -122,3 +122,17 @@ Fixpoint gsteps_in_range (c : lfield) (ops : list gop) : bool :=
   | o :: r => g_in_range c o && gsteps_in_range (gxstep c o) r
   end.
 Definition gcompile_all (ops : list gop) : list op := flat_map gcompile ops.
+
+(* separators (RelEditSpec.sstep) for operands of either kind *)
+Definition psstep (s : list fslot) (o : pop) : list fslot :=
+  match o with
+  | PPush _ _ _ => s_push s
+  | PInsert i _ _ _ => s_insert i s
+  | _ => s
+  end.
+Definition gsstep (f : lfield) (s : list fslot) (o : gop) : list fslot :=
+  match o with GA o => sstep f s o | GP o => psstep s o end.
+Definition gfs_step (fs : lfield * list fslot) (o : gop) : lfield * list fslot :=
+  (gxstep (fst fs) o, gsstep (fst fs) (snd fs) o).
+Definition gslots_after (ops : list gop) (f : lfield) (s : list fslot) : list fslot :=
+  snd (fold_left gfs_step ops (f, s)).
